@@ -13,6 +13,7 @@ from __future__ import annotations
 import io
 import json
 import os
+import re
 import shutil
 from typing import Any, Dict, List, Optional, Sequence, Set, Tuple
 
@@ -24,6 +25,16 @@ INFLIGHT = "metadata/inflight"
 OPS = {"exists": "E", "open_file": "O", "read_file": "R", "list_files": "L", "get_modified_time": "S", "delete_file": "D"}
 FAULT_CODE = {"raise": 1, "missing": 1, "raisex": 2, "bad": 3}
 FAULT_CTOR = {"raise": "FRaise", "missing": "FRaise", "raisex": "FRaiseX", "bad": "FBad"}
+
+
+HINT_KEY = "metadata.version-hint.text"
+_META_FILE = re.compile(r"^metadata/v\d+[^/]*\.metadata\.json$")
+
+
+def is_pointer_plane(key: str) -> bool:
+    """Version hint, metadata JSON files, the metadata/ listing of the recovery scan: metadata_manager territory
+    (C10 / C14), outside the collector model."""
+    return key == HINT_KEY or key == "metadata" or bool(_META_FILE.match(key))
 
 
 class NotOSError(Exception):
@@ -349,10 +360,12 @@ def run_collect(table: Any, grace_ms: int, now_s: float, plan: Optional[List[Dic
             del table.metadata_manager.refresh
         except AttributeError:
             table.metadata_manager.refresh = saved[5]
-    # projection: the calls made inside metadata_manager.refresh() are not part of the collector model
+    # projection: the calls made inside metadata_manager.refresh(), and the collector's own check of the version hint,
+    # concern the pointer plane, which is not part of the collector model
     a, b = st.mark if st.mark is not None else (len(st.trace), len(st.trace))
-    out["pre_trace"] = st.trace[a:b]
-    out["trace"] = st.trace[:a] + st.trace[b:]
+    rest = st.trace[:a] + st.trace[b:]
+    out["pre_trace"] = st.trace[a:b] + [c for c in rest if is_pointer_plane(c[1])]
+    out["trace"] = [c for c in rest if not is_pointer_plane(c[1])]
     out["keep_sets"] = keep_sets
     out["unknown"] = [t for t in st.trace if t[0].startswith("?") and t[0] != "?read_json"]
     return out
